@@ -35,6 +35,9 @@ type C01Case struct {
 	// WithErr: the connection returns its last octets TOGETHER with io.EOF in one Read (n > 0 and an error, which
 	// io.Reader allows and crypto/tls does when a close_notify is already waiting behind the data)
 	WithErr bool `json:"with_err,omitempty"`
+	// RideOut: ReadTimeout one minute, the peer is silent for five minutes before the LAST segment, and the backend
+	// answers the timeout error of its reader by lifting the connection's read deadline and reading on
+	RideOut bool `json:"ride_out,omitempty"`
 }
 
 type segReader struct {
@@ -105,7 +108,7 @@ func evalC01(c C01Case) (f *h.Finding) {
 		}
 		return nil
 	case "server":
-		be := &h.Backend{Plan: func(int) h.DataPlan { return h.DataPlan{Buf: c.Buf, Max: -1} }}
+		be := &h.Backend{Plan: func(int) h.DataPlan { return h.DataPlan{Buf: c.Buf, Max: -1, RideOut: c.RideOut} }}
 		prologue := c01Prologue
 		if c.AfterBdat {
 			prologue = "EHLO c.example\r\nMAIL FROM:<ok@a0.example>\r\nRCPT TO:<ok@b0.example>\r\nBDAT 10 LAST\r\n0123456789" + strings.TrimPrefix(c01Prologue, "EHLO c.example\r\n")
@@ -119,7 +122,12 @@ func evalC01(c C01Case) (f *h.Finding) {
 		if c.Slow {
 			cfg.ReadTO, cfg.WriteTO, cfg.PeerPause = 30*time.Minute, 10*time.Second, true
 		}
-		o := h.RunS(cfg, be, cutSegs(full, cuts), h.TermEOF)
+		segs := cutSegs(full, cuts)
+		if c.RideOut {
+			cfg.ReadTO = time.Minute
+			cfg.LongPauseBefore = len(segs)
+		}
+		o := h.RunS(cfg, be, segs, h.TermEOF)
 		if f := o.Sanity("c01", fmt.Sprintf("stream %q", c.Stream)); f != nil {
 			return f
 		}
@@ -219,7 +227,7 @@ func C01(tier string) int {
 		limits = []int64{0, 1 << 20}
 		allSegUpTo = 7
 	}
-	run.Rule = fmt.Sprintf("every octet stream body+CRLF.CRLF+tail and .CRLF+tail with body over the class alphabet {'.',CR,LF,'a'} of length<=%d (reader seam) / <=%d (full server path), each x segmentations {one segment, one octet per segment, every 2-split%s} x backend read sizes %v x size limit {none, exactly the message size (bodies <= 8)}; distinct by construction (enumeration), non-trivial = body contains '.', CR or LF. Plus (full server path) lines of exactly the maximal permitted length, 1 and 5 less, behind/in front of other lines with the segment boundary at EVERY position (MaxLineLength 32; default 2000 with the line's CR at octets 4094..4098 of the connection, i.e. around the server's read-buffer boundary), and all bodies <=4 from a SLOW peer (40 s virtual pause before every segment, WriteTimeout 10 s, ReadTimeout 30 min; the scripted connection honours the armed read deadline). All bodies <=5 once more as the SECOND message of the connection, behind a chunked one, under a size limit that each message fits but not both together. All bodies <=4 over {NUL, ESC, DEL, '.', CR, LF} with Server.Debug set (the traffic is copied to a writer). All bodies <=5 with the end of the message and the end of the connection delivered by ONE Read (n > 0 together with io.EOF, as crypto/tls does for a waiting close_notify) x {everything in one read, message in its own read, last 1..6 octets in the last read}. Oracle: ref.Unstuff. Random 256-octet streams are a labelled supplement (counters.random_supplement) and not part of 'exhaustive'.",
+	run.Rule = fmt.Sprintf("every octet stream body+CRLF.CRLF+tail and .CRLF+tail with body over the class alphabet {'.',CR,LF,'a'} of length<=%d (reader seam) / <=%d (full server path), each x segmentations {one segment, one octet per segment, every 2-split%s} x backend read sizes %v x size limit {none, exactly the message size (bodies <= 8)}; distinct by construction (enumeration), non-trivial = body contains '.', CR or LF. Plus (full server path) lines of exactly the maximal permitted length, 1 and 5 less, behind/in front of other lines with the segment boundary at EVERY position (MaxLineLength 32; default 2000 with the line's CR at octets 4094..4098 of the connection, i.e. around the server's read-buffer boundary), and all bodies <=4 from a SLOW peer (40 s virtual pause before every segment, WriteTimeout 10 s, ReadTimeout 30 min; the scripted connection honours the armed read deadline). A message transferred in plaintext, STARTTLS with a real handshake, then 5 messages via DATA inside TLS (x 3 modes x 3 kinds of plaintext transfer). All bodies <=5 x every cut point with a READ TIMEOUT at the cut (ReadTimeout 1 min, five minutes of silence) that the backend rides out by lifting the connection's deadline and reading on (the reader must resume where it was). All bodies <=5 once more as the SECOND message of the connection, behind a chunked one, under a size limit that each message fits but not both together. All bodies <=4 over {NUL, ESC, DEL, '.', CR, LF} with Server.Debug set (the traffic is copied to a writer). All bodies <=5 with the end of the message and the end of the connection delivered by ONE Read (n > 0 together with io.EOF, as crypto/tls does for a waiting close_notify) x {everything in one read, message in its own read, last 1..6 octets in the last read}. Oracle: ref.Unstuff. Random 256-octet streams are a labelled supplement (counters.random_supplement) and not part of 'exhaustive'.",
 		L, LS, map[bool]string{true: fmt.Sprintf(", all 2^(n-1) segmentations for streams of <=%d+5 octets", allSegUpTo), false: ""}[allSegUpTo > 0], bufs)
 	run.Assumptions = []string{
 		"the reader branches only on '.', CR, LF vs. any other octet, so one representative 'a' stands for the 253 other octets (the random supplement exercises all 256 values)",
@@ -389,6 +397,17 @@ func C01(tier string) int {
 			lcases = append(lcases, C01Case{Seam: "server", Stream: stream, Cuts: []int{cut}, Buf: 4096, Slow: true})
 		}
 	})
+	// A read timeout in the middle of the message that the backend rides out: ReadTimeout 1 min, five minutes of silence
+	// at every cut point of all short bodies, a backend that lifts the deadline and reads on. The reader's position in
+	// the dot-unstuffing state machine has to survive the failed Read.
+	enumStrings(c01Alphabet, 5, func(b []byte) {
+		stream := mk(b)
+		for cut := 1; cut < len(b)+5; cut++ {
+			for _, buf := range []int{1, 4096} {
+				lcases = append(lcases, C01Case{Seam: "server", Stream: stream, Cuts: []int{cut}, Buf: buf, RideOut: true})
+			}
+		}
+	})
 	// A chunked message first, then the DATA message, under a size limit that each fits but not both together
 	enumStrings(c01Alphabet, 5, func(b []byte) {
 		stream := mk(b)
@@ -465,5 +484,20 @@ func C01(tier string) int {
 	})
 	run.Counter("random_supplement", int64(len(rcases)))
 	run.Sample("random-supplement", 1, fmt.Sprintf("%q", rcases[0].Stream))
+	// a message in plaintext, STARTTLS (real handshake), then a DATA message inside TLS: whatever the server keeps per
+	// connection for reading messages has to follow the upgrade (the family of C02, judged here for the body)
+	for _, mode := range []string{"smtp", "lmtp", "lmtp-rcpt"} {
+		for _, first := range []string{"data", "bdat", "data+bdat"} {
+			for mi := range c02UpgradeMsgs {
+				c := C02UpgradeCase{Mode: mode, First: first, Msg: mi, Via: "data"}
+				f := evalC02Upgrade(c)
+				run.Eval(true)
+				if f != nil {
+					f.Sig = strings.Replace(f.Sig, "c02-", "c01-", 1)
+					run.Violate("c02-upgrade", c, f, func() *h.Finding { return evalC02Upgrade(c) })
+				}
+			}
+		}
+	}
 	return run.Finish()
 }
